@@ -251,8 +251,33 @@ func (w *SessWorld) mustEnd(s *SS, what string, resp *spb.ModifyResponse, err er
 		}
 		return []string{fmt.Sprintf("wrong-termination-status:%s:%s|%s on %s: %s", sigClass, code, what, s.Name, msg)}
 	}
+	if !e.AnyNonOK && err != nil && !NoDetailsClasses[sigClass] {
+		if n := errorDetails(err); n != 1 {
+			return []string{fmt.Sprintf("wrong-termination-status:%s:%d-error-details|%s on %s ended with %v, which carries %d ModifyRPCErrorDetails messages instead of one", sigClass, n, what, s.Name, err, n)}
+		}
+	}
 	return nil
 }
+
+// errorDetails counts the ModifyRPCErrorDetails messages of a status: the status of a
+// protocol violation carries one (whose reason may be the zero value where the
+// specification names none).
+func errorDetails(err error) int {
+	n := 0
+	if st, ok := status.FromError(err); ok {
+		for _, d := range st.Details() {
+			if _, ok := d.(*spb.ModifyRPCErrorDetails); ok {
+				n++
+			}
+		}
+	}
+	return n
+}
+
+// NoDetailsClasses lists the violation classes whose status carries no
+// ModifyRPCErrorDetails: a malformed message (INVALID_ARGUMENT: several fields populated,
+// zero election id), for which the specification defines no reason.
+var NoDetailsClasses = map[string]bool{"multi-field": true, "bad-election": true}
 
 // ParamsClass classifies a SessionParameters message.
 func ParamsSupported(p *spb.SessionParameters) bool {
@@ -530,6 +555,11 @@ func (w *SessWorld) SendOps(s *SS, specs []gen.OpSpec, stamp *spb.Uint128) []str
 			}
 			if msg := exp.CheckStatus(err); msg != "" && verdict == OpEndsRPC {
 				probs = append(probs, fmt.Sprintf("wrong-termination-status:bad-operation:%s|%s (%s): %s", status.Code(res.RPCErr), s.Name, why, msg))
+			}
+			if verdict == OpEndsRPC && err != nil && status.Code(err) == codes.FailedPrecondition {
+				if n := errorDetails(err); n != 1 {
+					probs = append(probs, fmt.Sprintf("wrong-termination-status:bad-operation:%d-error-details|%s (%s): the RPC ended with %v, which carries %d ModifyRPCErrorDetails messages instead of one", n, s.Name, why, err, n))
+				}
 			}
 		} else {
 			if verdict == OpEndsRPC && !inBandOK {
@@ -984,6 +1014,8 @@ func (w *SessWorld) SendGoodThenUnstamped(s *SS, first, second gen.OpSpec, unkno
 	}
 	if msg := (Expect{Codes: []codes.Code{codes.FailedPrecondition}}).CheckStatus(err); msg != "" {
 		probs = append(probs, fmt.Sprintf("wrong-termination-status:no-election-id-later-in-request:%s|%s: %s", status.Code(res.RPCErr), s.Name, msg))
+	} else if n := errorDetails(err); n != 1 {
+		probs = append(probs, fmt.Sprintf("wrong-termination-status:no-election-id-later-in-request:%d-error-details|%s: the RPC ended with %v, which carries %d ModifyRPCErrorDetails messages instead of one", n, s.Name, err, n))
 	}
 	return probs
 }
